@@ -279,6 +279,117 @@ pub fn gen_network(rng: &mut Rng, o: &NetOpts) -> Vec<Link> {
     links
 }
 
+/// Content of `l` on [a, b] (offsets re-based to a). Headings are dropped (a split link is straight).
+fn sub_link(l: &Link, a: f64, b: f64) -> Link {
+    let mut out = l.clone();
+    out.length = (b - a) * uc::M;
+    let at = |x: f64| -> f64 {
+        let e = &l.elevs;
+        for w in e.windows(2) {
+            let (x0, x1) = (w[0].offset.value, w[1].offset.value);
+            if x >= x0 && x <= x1 {
+                return if x1 > x0 { w[0].elev.value + (w[1].elev.value - w[0].elev.value) * (x - x0) / (x1 - x0) } else { w[0].elev.value };
+            }
+        }
+        e.last().map(|p| p.elev.value).unwrap_or(0.0)
+    };
+    let mut elevs = vec![Elev { offset: 0.0 * uc::M, elev: at(a) * uc::M }];
+    for p in &l.elevs {
+        if p.offset.value > a && p.offset.value < b {
+            elevs.push(Elev { offset: (p.offset.value - a) * uc::M, elev: p.elev });
+        }
+    }
+    elevs.push(Elev { offset: (b - a) * uc::M, elev: at(b) * uc::M });
+    out.elevs = elevs;
+    out.headings = vec![];
+    let cut_set = |ss: &SpeedSet| -> SpeedSet {
+        let mut o = ss.clone();
+        o.speed_limits = ss
+            .speed_limits
+            .iter()
+            .filter(|r| r.offset_end.value > a && r.offset_start.value < b)
+            .map(|r| SpeedLimit { offset_start: (r.offset_start.value.max(a) - a) * uc::M, offset_end: (r.offset_end.value.min(b) - a) * uc::M, speed: r.speed })
+            .collect();
+        o
+    };
+    out.speed_set = l.speed_set.as_ref().map(cut_set);
+    out.speed_sets = l.speed_sets.iter().map(|(k, v)| (*k, cut_set(v))).collect();
+    out.cat_power_limits = l
+        .cat_power_limits
+        .iter()
+        .filter(|r| r.offset_end.value > a && r.offset_start.value < b)
+        .map(|r| CatPowerLimit { offset_start: (r.offset_start.value.max(a) - a) * uc::M, offset_end: (r.offset_end.value.min(b) - a) * uc::M, power_limit: r.power_limit, district_id: r.district_id.clone() })
+        .collect();
+    out
+}
+
+/// Splits forward link `i` at offset `x` into `i` = [0, x] and a new link [x, L] (and its flip accordingly);
+/// returns the index of the new forward link. Connectivity, flips and lockout declarations stay consistent.
+/// The dispatcher lets a train wait only where it arrives on a link that leads into a converging switch, so
+/// a siding made of one link can never hold a train clear of the main (see DESIGN, world dsp).
+pub fn split_link(links: &mut Vec<Link>, i: usize, x: f64) -> usize {
+    let len = links[i].length.value;
+    assert!(x > 0.0 && x < len);
+    let f = links[i].idx_flip.idx();
+    let (j, g) = (links.len(), links.len() + 1);
+    let li = links[i].clone();
+    let lf = links[f].clone();
+    let id = |k: usize| LinkIdx::new(k as u32);
+    // forward: i = [0, x], j = [x, L]
+    let mut a = sub_link(&li, 0.0, x);
+    let mut b = sub_link(&li, x, len);
+    a.idx_next = id(j);
+    a.idx_next_alt = id(0);
+    b.idx_curr = id(j);
+    b.idx_flip = id(g);
+    b.idx_prev = id(i);
+    b.idx_prev_alt = id(0);
+    // reverse: g = [0, L - x] (new, travelled first), f = [L - x, L]
+    let mut c = sub_link(&lf, 0.0, len - x);
+    let mut d = sub_link(&lf, len - x, len);
+    c.idx_curr = id(g);
+    c.idx_flip = id(j);
+    c.idx_next = id(f);
+    c.idx_next_alt = id(0);
+    d.idx_prev = id(g);
+    d.idx_prev_alt = id(0);
+    links[i] = a;
+    links[f] = d;
+    links.push(b);
+    links.push(c);
+    for s in [li.idx_next.idx(), li.idx_next_alt.idx()] {
+        if s != 0 {
+            if links[s].idx_prev.idx() == i {
+                links[s].idx_prev = id(j);
+            }
+            if links[s].idx_prev_alt.idx() == i {
+                links[s].idx_prev_alt = id(j);
+            }
+        }
+    }
+    for p in [lf.idx_prev.idx(), lf.idx_prev_alt.idx()] {
+        if p != 0 {
+            if links[p].idx_next.idx() == f {
+                links[p].idx_next = id(g);
+            }
+            if links[p].idx_next_alt.idx() == f {
+                links[p].idx_next_alt = id(g);
+            }
+        }
+    }
+    // whoever declares i (f) as mutually exclusive declares the new pieces too
+    for k in 1..links.len() {
+        let lo = &mut links[k].link_idxs_lockout;
+        if lo.iter().any(|q| q.idx() == i) && !lo.iter().any(|q| q.idx() == j) {
+            lo.push(id(j));
+        }
+        if lo.iter().any(|q| q.idx() == f) && !lo.iter().any(|q| q.idx() == g) {
+            lo.push(id(g));
+        }
+    }
+    j
+}
+
 // ------------------------------------------------------------------------------------------------
 // Reference models over the network's own data
 // ------------------------------------------------------------------------------------------------
